@@ -3,7 +3,7 @@ from .. import core, tlc, illformed
 from .structural import CONSTS, model_sig
 
 
-KINDS = {"dup-identical", "dup-diff-samedeps", "dup-regrouped", "dup-diff-deps", "dup-other-comp-diff", "dup-other-comp-identical",
+KINDS = {"clash-param-derivative", "clash-param-any-assignment", "dup-identical", "dup-diff-samedeps", "dup-regrouped", "dup-diff-deps", "dup-other-comp-diff", "dup-other-comp-identical",
          "clash-state-param-equal", "clash-state-param-unequal", "clash-param-inter", "clash-state-inter",
          "dup-state-diff", "dup-param-diff", "dup-state-identical",
          "missing-derivative", "orphan-derivative", "misplaced-derivative",
@@ -59,6 +59,9 @@ def main(chk: core.Check, replay):
         raise core.MachineryFailure("no ill-formed text in the sample")
     chk.sample({"text": bad[0]["text"], "fault": bad[0]["fault"], "well_formed": False, "real_loader": bad[0]["exception"]})
     chk.sample({"text": out[0]["text"], "fault": out[0]["fault"], "well_formed": out[0]["wellformed"], "real_loader": out[0]["exception"]})
+    # arbitrary token strings at file level (OdeFile.tla / MC_File.tla): what the loader accepts is well formed
+    from .. import filecase
+    filecase.run(chk, "C08")
 
 
 if __name__ == "__main__":
